@@ -310,11 +310,26 @@ def table_case(ctx, rng, idx):
     m.set_administration('central', direct=bool(rng.integers(2)))
     t_ref = float(rng.uniform(1.0, 6.0))
     kind, kw, ev_all = gen_regimen(rng, t_ref)
-    wrapper = ['predictive', 'population', 'prior'][idx % 3]
+    wrapper = ['predictive', 'population', 'prior', 'pam'][idx % 4]
     pm = chi.PredictiveModel(m, [chi.GaussianErrorModel()])
+    candidates = [pm]
     if wrapper == 'population':
         obj = chi.PopulationPredictiveModel(
             pm, chi.PooledModel(n_dim=pm.n_parameters()))
+    elif wrapper == 'pam':
+        # probabilistic average of several candidate models, each with its
+        # own mechanistic model: the regimen is set through the average
+        from checks import c15
+        m2 = ModelLibrary().one_compartment_pk_model()
+        m2.set_administration('central', direct=bool(rng.integers(2)))
+        pm2 = chi.PredictiveModel(m2, [chi.LogNormalErrorModel()])
+        candidates = [pm, pm2]
+        if rng.random() < 0.5:
+            candidates = candidates[::-1]
+        obj = chi.PAMPredictiveModel([
+            chi.PosteriorPredictiveModel(c_, c15._posterior_dataset(
+                rng, c_.get_parameter_names(), 2, 4, ['a']))
+            for c_ in candidates], weights=[1.0, 2.0])
     else:
         obj = pm
     try:
@@ -371,6 +386,21 @@ def table_case(ctx, rng, idx):
                        'regimen': {k: v for k, v in kw.items()
                                    if not isinstance(v, myokit.Protocol)},
                        'final_time': final}, feats)
+        return
+    # every model that simulates for the wrapper applies that regimen
+    for j, c_ in enumerate(candidates):
+        dfc = c_.get_dosing_regimen(final)
+        gotc = [] if dfc is None else sorted(zip(
+            dfc['Time'].astype(float), dfc['Duration'].astype(float),
+            dfc['Dose'].astype(float)))
+        ctx.count('candidate_regimens_compared')
+        if len(gotc) != len(want) or (len(want) and not np.allclose(
+                np.array(gotc), np.array(want), rtol=1e-9, atol=1e-12)):
+            ctx.violation('regimen_table_lists_applied_events',
+                          'candidate_model_without_the_regimen:' + wrapper,
+                          {'candidate': j, 'its table': gotc,
+                           'reported table': want}, feats)
+            return
 
 
 def dataset_case(ctx, rng, idx):
